@@ -86,8 +86,12 @@ func orchMain(args []string) int {
 		fmt.Fprintln(os.Stderr, "known findings:", err)
 		return 2
 	}
-	os.MkdirAll(filepath.Join(*verif, "replays"), 0o755)
-	os.MkdirAll(filepath.Join(*verif, "evidence"), 0o755)
+	if out := os.Getenv("VERIF_OUT"); out != "" {
+		// sensitivity runs against scratch copies write their evidence and replay files elsewhere
+		o.verif = out
+	}
+	os.MkdirAll(filepath.Join(o.verif, "replays"), 0o755)
+	os.MkdirAll(filepath.Join(o.verif, "evidence"), 0o755)
 
 	fmt.Printf("orbsim: property=%s tier=%s VERIF_SEED=%d workers=%d\n", p.ID, o.tier, o.seedInt, o.workers)
 	for i := range p.Engines {
